@@ -43,7 +43,7 @@ ASSUMPTIONS = ["long double has a 64-bit significand (x87): sizes whose mantissa
                "glibc sets ERANGE exactly for results that round to infinity or lie below the smallest normal number",
                "MemTotal / SwapTotal below 2^56 bytes (percent of total does not overflow int64); SwapTotal below 2^31 "
                "(KillSwapUsage keeps it in an int - finding of C09)",
-               "JSON numbers in configuration documents are integers below 2^53 (jsoncpp's rendering of reals is not modelled)",
+               "JSON numbers in configuration documents are integers of [-2^63, 2^64), which jsoncpp keeps exactly (its rendering of reals is not modelled)",
                "jsoncpp's text -> value tree step is taken from the harness (syntax verdict) and Python's json (tree)"]
 TRUSTED = ["glibc strto* / libstdc++ std::sto* (modelled, validated string by string on every run)",
            "jsoncpp reader (external to the model)"]
@@ -233,14 +233,24 @@ POOL = {
 }
 
 
+def pick_ok(rng, kind):
+    """a valid value of the kind; 64-bit kinds (and free strings) are often a random integer that no double represents"""
+    if kind in ("int64", "ms", "string") and rng.random() < 0.35:
+        n = rng.choice([rng.randint(2 ** 53, 2 ** 63 - 1) | 1, -(rng.randint(2 ** 53, 2 ** 63 - 1) | 1), 2 ** 53 + 1, 10 ** 17 + 3])
+        if kind == "string" and rng.random() < 0.3:
+            n = rng.randint(2 ** 63, 2 ** 64 - 1) | 1
+        return "%d" % n
+    ok = POOL[kind][0]
+    return rng.choice(ok) if ok else "x"
+
+
 def valid_base(rng, sch):
     """a valid argument assignment: required arguments, plus cgroup when declared"""
     name, hook, kill, checks, args = sch
     a = {}
     for an, req, kind in args:
         if req or an == "cgroup" and rng.random() < 0.8:
-            ok = POOL[kind][0]
-            a[an] = rng.choice(ok) if ok else "x"
+            a[an] = pick_ok(rng, kind)
     if name in ("memory_above", "kill_by_swap_usage"):
         a["meminfo_location"] = "@MEMINFO"
     return a
@@ -257,7 +267,7 @@ def plugin_variants(rng, sch, tier):
         a = dict(base)
         for an, req, kind in args:
             if not req and POOL[kind][0] and rng.random() < 0.5:
-                a[an] = rng.choice(POOL[kind][0])
+                a[an] = pick_ok(rng, kind)
         out.append((a, {}))
     # each required argument missing
     for an, req, kind in args:
@@ -347,7 +357,7 @@ def rand_plugin(rng, want_kill, p_bad):
         a = valid_base(rng, sch)
         for an, req, kind in sch[4]:
             if not req and POOL[kind][0] and rng.random() < 0.3:
-                a[an] = rng.choice(POOL[kind][0])
+                a[an] = pick_ok(rng, kind)
     nm = sch[0]
     if rng.random() < p_bad * 0.3:
         nm = rng.choice(["", "no_such_plugin", nm.upper()])
@@ -392,7 +402,9 @@ def rand_ir(rng, p_bad):
 def ir_to_doc(rng, ir, stringly=True):
     """render an IR in the JSON grammar of docs/configuration.md; scalar arguments sometimes as JSON numbers / bools"""
     def val(v):
-        if not stringly and re.fullmatch(r"-?[1-9][0-9]{0,14}|0", v) and rng.random() < 0.5:
+        # jsoncpp keeps integers of [-2^63, 2^64) exactly (intValue / uintValue) and asString() renders them exactly; anything
+        # wider is read as a real, whose rendering is not modelled
+        if not stringly and re.fullmatch(r"-?[1-9][0-9]{0,19}|0", v) and -2 ** 63 <= int(v) < 2 ** 64 and rng.random() < 0.5:
             return int(v)
         if not stringly and v in ("true", "false") and rng.random() < 0.5:
             return v == "true"
@@ -522,7 +534,7 @@ def has_float(v):
         return any(has_float(x) for x in v.values())
     if isinstance(v, list):
         return any(has_float(x) for x in v)
-    if isinstance(v, int) and not isinstance(v, bool) and abs(v) >= 2 ** 53:
+    if isinstance(v, int) and not isinstance(v, bool) and not (-2 ** 63 <= v < 2 ** 64):
         return True
     return False
 
